@@ -18,7 +18,7 @@ impl Database {
     pub fn list_conflicts_keys(&self, key: &String) -> Vec<String> {
         let pendding_conflict = self.list_keys(
             &String::from(format!("{prefix}_{key}", key = key, prefix = CONFLICTS_KEY)),
-            true,
+            false, // conflict records are `$conflicts_…` keys, never `$$` secure keys
         );
         pendding_conflict
     }
